@@ -130,7 +130,8 @@ package corebgp
 // Serve's deferred function: stop (and join) every registered peer under the lock.
 //@ func Server.Serve$1 ()
 //@   local s #0 *Server
-//@   loop#0 invariant [stopping] 0 <= rangepos && rangepos <= rangelen && locked(s.mu) && s.doneServingCh != nil && !chanClosed(s.doneServingCh) && stoppablePeers(s)
+//@   loop#0 invariant [stopping] 0 <= rangepos && rangepos <= rangelen && locked(s.mu) && s.doneServingCh != nil && !chanClosed(s.doneServingCh) && stoppablePeers(s) && (forall j :: 0 <= j && j < rangepos ==> !peerRunning(s.peers[rangekey(j)]))
+//@   at call close#0 assert [every_peer_joined_before_serving_is_declared_over] (forall j :: 0 <= j && j < rangelen ==> !peerRunning(s.peers[rangekey(j)]))
 
 // The listener goroutine: accept, hand every connection to handleInboundConn,
 // report the first Accept error unless the listeners are being closed.
